@@ -253,6 +253,7 @@ func runEncoderProps(r *Run, prop string) {
 		// C02 speaks of every file the encoder or the file writer produces: the FileWriter used
 		// directly (empty blocks, blocks at varint boundaries, AppendHeader behind a prefix)
 		c09FileWriterDirect(r, false)
+		c01EveryBlockLength(r, true)
 	}
 	nfiles := r.N(90, 2500)
 	for i := 0; i < nfiles; i++ {
